@@ -378,20 +378,26 @@ def allParentsVisited (dep : Nat → Except String Bool) (visited : List Nat) :
     | .ok false => allParentsVisited dep visited ps
     | .ok true => if visited.contains p then allParentsVisited dep visited ps else .ok false
 
-/-- The `for child in self.get_children(current_node)` loop: returns the new frontier. -/
-def bfsChildren (g : Graph) (dep : Nat → Except String Bool) (visited : List Nat) :
+/-- The `for child in self.get_children(current_node)` loop: returns the new frontier.
+`guard` is the cycle guard of the start-node branch (/repo 13ffad9): a child that
+passes the parent test but is already visited raises `RuntimeError`. -/
+def bfsChildren (g : Graph) (dep : Nat → Except String Bool) (guard : Bool) (visited : List Nat) :
     List Nat → List Nat → Except String (List Nat)
   | [], frontier => .ok frontier
   | c :: cs, frontier =>
     if g.hasNode c then
       match allParentsVisited dep visited (g.parentsOf c) with
       | .error e => .error e
-      | .ok true => bfsChildren g dep visited cs (frontier ++ [c])
-      | .ok false => bfsChildren g dep visited cs frontier
+      | .ok true =>
+        if guard && visited.contains c then .error "RuntimeError"
+        else bfsChildren g dep guard visited cs (frontier ++ [c])
+      | .ok false => bfsChildren g dep guard visited cs frontier
     else .error "ValueError"    -- `get_parents(child)` on a dangling child
 
-/-- The `while len(frontier) > 0` loop of `breadth_first` (frontier head = left end). -/
-def bfsLoop (g : Graph) (dep : Nat → Except String Bool) :
+/-- The `while len(frontier) > 0` loop of `breadth_first` (frontier head = left end).
+An exception inside the child loop is raised before the current node is yielded;
+the nodes yielded earlier stay yielded. -/
+def bfsLoop (g : Graph) (dep : Nat → Except String Bool) (guard : Bool) :
     Nat → List Nat → List Nat → List Nat → List Nat × Option String
   | 0, _, _, acc => (acc, some "OutOfFuel")
   | _ + 1, [], _, acc => (acc, none)
@@ -400,9 +406,9 @@ def bfsLoop (g : Graph) (dep : Nat → Except String Bool) :
     match List.lookup cur g.children with
     | none => (acc, some "ValueError")
     | some cs =>
-      match bfsChildren g dep visited' cs rest with
+      match bfsChildren g dep guard visited' cs rest with
       | .error e => (acc, some e)
-      | .ok frontier' => bfsLoop g dep fuel frontier' visited' (acc ++ [cur])
+      | .ok frontier' => bfsLoop g dep guard fuel frontier' visited' (acc ++ [cur])
 
 /-- Fuel for `bfsLoop`: `(E+2)^(|V|+1)`; on graphs without parallel edges `|V|+1`
 already suffices, parallel edges multiply the number of visits. -/
@@ -417,22 +423,23 @@ that set are waited for. -/
 def breadthFirstWithFuel (fuel : Nat) (g : Graph) (start : Option Nat) (truthy : Bool := true) :
     List Nat × Option String :=
   match start with
-  | none => bfsLoop g (fun _ => .ok true) fuel g.getSources [] []
+  | none => bfsLoop g (fun _ => .ok true) false fuel g.getSources [] []
   | some n =>
     if truthy then
       match g.depthFirst (some n) with
       | (_, some e) => ([], some e)     -- raised while building `reachable_nodes`: nothing yielded yet
       | (reachable, none) =>
-        bfsLoop g (fun p => .ok (reachable.contains p)) fuel [n] [] []
+        bfsLoop g (fun p => .ok (reachable.contains p)) true fuel [n] [] []
     else
       -- `reachable_nodes` is unbound: the parent filter raises on its first evaluation
-      bfsLoop g (fun _ => .error "NameError") fuel g.getSources [] []
+      -- (`node is not None`, so the cycle guard is active here too)
+      bfsLoop g (fun _ => .error "NameError") true fuel g.getSources [] []
 
-/-- `breadth_first(node)`.  NOTE: since /repo commit a5de234 `breadth_first(node)` no
-longer calls `are_dependent`, so a cycle reachable from `node` is not reported any
-more: the real generator then yields forever.  The model runs on `bfsFuel g`
-(astronomical on such graphs); the driver caps the fuel (`breadthFirstWithFuel`)
-and reports `Runaway` exactly like the harness does for the real generator. -/
+/-- `breadth_first(node)`.  With a start node a cycle reachable from it is reported as
+`RuntimeError` by the guard in `bfsChildren` (/repo 13ffad9; between a5de234 and that
+commit the real generator looped forever); the nodes yielded before stay yielded.
+The driver still runs on capped fuel (`breadthFirstWithFuel`) so that a runaway real
+generator would be reported instead of hanging the run. -/
 def breadthFirst (g : Graph) (start : Option Nat) (truthy : Bool := true) :
     List Nat × Option String :=
   breadthFirstWithFuel (bfsFuel g) g start truthy
